@@ -419,7 +419,7 @@ func TestC21(t *testing.T) {
 	defer r.Finish()
 	r.Rule("histories of 30 operations on main-net id over 7 chain ids (3 VOTE-router, eth, hsc, bytom, harmony): register+approve, register only / approvals below quorum, quit+approve, quit request only, BlackChain / WhiteChain by the operator and by non-operators, imports (voting rounds with fresh messages) between random chain pairs; block height walks over the router start block 18,823,000; distinct = (N, sequence of operation kinds incl. the gate each import hit)")
 	rng := r.Rand("histories")
-	nh := r.N(800, 20000)
+	nh := r.N(500, 18000)
 	for i := 0; i < nh && r.Violations() < 30; i++ {
 		runHistory(r, rng, 4+i%4, i)
 	}
